@@ -68,6 +68,7 @@ KERNELS = {
     "generate_ordered_map_to_left_both_unique": {"owner": "C19", "mutated": [2]},
     "generate_ordered_map_to_left_right_unique": {"owner": "C19", "mutated": [2]},
     "ordered_inner_map_both_unique": {"owner": "C19", "mutated": [2, 3]},      # returns None
+    "ordered_inner_map_result_size": {"owner": "C19"},
 }
 C08_NOSRC = ("apply_spans_count", "apply_spans_index_of_first", "apply_spans_index_of_last")
 C08_REDUCE = ("apply_spans_count", "apply_spans_first", "apply_spans_last", "apply_spans_max", "apply_spans_min",
@@ -1005,6 +1006,13 @@ def random_c19(rng, n_cases):
     out = []
     for t in range(n_cases):
         nl, nr = rng.randrange(0, 12), rng.randrange(0, 12)
+        if t % 4 == 3:
+            # every subscript is guarded by a length test: no call is `_unsafe`, sorted or not
+            left, right = _sorted_keys(rng, nl, False), _sorted_keys(rng, nr, False)
+            if rng.random() < 0.15:
+                left = [rng.randrange(-3, 4) for _ in range(nl)]
+            out.append(gcase("ordered_inner_map_result_size", [arr(left), arr(right)], fuel=nl + nr + 1, _from="random"))
+            continue
         if t % 3 == 2:
             left, right = _sorted_keys(rng, nl, True), _sorted_keys(rng, nr, True)
             if rng.random() < 0.1:
